@@ -155,7 +155,7 @@ SPECS = {
     "C13": dict(shards=(16, 32), level="exploration", post="c13_post",
                 floors={"quick": {"offline_pure_values": 40000, "offline_insitu_epochs": 150, "offline_insitu_values": 3000,
                                   "offline_insitu_epochs_with_psk": 20, "offline_insitu_welcome_epochs": 20,
-                                  "offline_insitu_sender_data_checked": 100, "pure:openssl:suite4": 50, "pure:awslc:suite7": 50,
+                                  "offline_insitu_sender_data_checked": 100, "offline_insitu_external_init_checked": 3, "pure:openssl:suite4": 50, "pure:awslc:suite7": 50,
                                   "pure:rustcrypto:suite3": 50}},
                 show=("histories", "commit_accepted", "pure_cases", "insitu", "offline_"),
                 rule="(1) pure: fresh (init secret, commit secret, GroupContext fields, PSK list of 0-6 mixed ids, tree size up to 2^10, leaf, "
